@@ -154,8 +154,11 @@ PqExtend(s, pairs, rebuild, f) ==
   ELSE PqPushAll(s, pairs, f)
 
 \* mod.rs `better_to_rebuild` and the hint logic of `extend`; hint = <<lo, hi>> with hi = -1 for None
+\* (saturating arithmetic since fix 56aceb1: with an upper bound near usize::MAX - hint code -9 - both
+\* sides saturate and the strict comparison is false)
 BetterToRebuild(len1, len2) == IF len1 <= 1 THEN FALSE ELSE 2 * (len1 + len2) < len2 * Log2(len1)
 ExtendRebuilds(len, hint) ==
+  IF hint[2] = -9 THEN FALSE ELSE
   IF hint[2] # -1 THEN BetterToRebuild(len, hint[2])
   ELSE IF hint[1] # 0 THEN BetterToRebuild(len, hint[1]) ELSE FALSE
 
